@@ -42,6 +42,7 @@ def gen_case(rng, car):
         v = rng.choice([0, 0, 2, -3, 1])
         if not cplx and rng.random() < 0.25:       # a fill value with ~30 significant bits (exact in float64 only)
             c = expr.wide_dyadic(rng)
+            pads[0] = [rng.choice([1, 2]), rng.choice([1, 2])]; pads[-1] = [rng.choice([1, 2]), rng.choice([1, 2])]
             return Op("OPad", [x, Scal("float", c, coq_value=Fraction(c))], [[0, d]] + pads), "pad:fill-wide", coqrun.QC
         return Op("OPad", [x, Scal(rng.choice(["int", "float"]), v)], [[0, d]] + pads), "pad:" + ("zero" if v == 0 else "fill"), None
     if r < 0.56:                                   # pad (operator)
@@ -51,7 +52,7 @@ def gen_case(rng, car):
         pads = [[rng.choice([0, 1, 2]), rng.choice([0, 1, 2])] for _ in range(k)]
         v = rng.choice([0, 2, -3, 1])
         if not cplx and rng.random() < 0.3:
-            c = expr.wide_dyadic(rng)
+            c = expr.wide_dyadic(rng); pads[0] = [rng.choice([1, 2]), rng.choice([1, 2])]; pads[-1] = [rng.choice([1, 2]), rng.choice([1, 2])]       # the fill value enters through the blocks of ONE padded mode (the last one in the pinned code): the blocks of the first and of the last padded mode exist
             return Op("OPad", [A, Scal("float", c, coq_value=Fraction(c))], [[1, d]] + pads), "pad-ttm:fill-wide", coqrun.QC
         return Op("OPad", [A, Scal(rng.choice(["int", "float"]), v)], [[1, d]] + pads), "pad-ttm:" + ("zero" if v == 0 else "fill"), None
     if r < 0.74:                                   # mprod: one mode (tensor argument) or a list (repeated modes allowed)
